@@ -108,7 +108,9 @@ PROPS = {
         clock_twin=[{"test": "TestC10", "dir": "C10", "n_quick": 60, "n_thorough": 600},
                     {"test": "TestC12", "dir": "C12", "n_quick": 40, "n_thorough": 400},
                     {"test": "TestC14", "dir": "C14", "n_quick": 40, "n_thorough": 400},
-                    {"test": "TestC18", "dir": "C18", "n_quick": 30, "n_thorough": 300}],
+                    {"test": "TestC18", "dir": "C18", "n_quick": 30, "n_thorough": 300},
+                    # the oracle histories (several claims reaching their quorum in one end blocker): two executions, two map orders
+                    {"test": "TestC02", "dir": "C02", "n_quick": 60, "n_thorough": 600}],
         n_quick=6, n_thorough=60, thorough_seeds=4, timeout_quick=900,
         spec_ops=[],
         level_text="PARTIAL. Lean 4 theorems: order-independence of every map-iteration on a consensus path (min/max window, total-order sort uniqueness, distinct-key writes, unique evidence winner) and, by decide over the inventory regenerated "
